@@ -26,6 +26,11 @@ manifest = {
     "engines": [
         {"name": "hypothesis-runner", "path": "vlib/runner.py", "serves_properties": [c["id"] for c in CHECKS],
          "kind_free_text": "Hypothesis @given / stateful machines, seeded from VERIF_SEED, sharded over 16 processes, explicit oracles in vlib/oracles"},
+        {"name": "history-monitor", "path": "vlib/engine.py + vlib/monitor.py + vlib/configs.py",
+         "serves_properties": [c["id"] for c in CHECKS if c["engine"] == "history-monitor"],
+         "kind_free_text": "instrumented in-process runs of the real single-process mediator with per-event invariant checks"},
+        {"name": "libfuzzer-heap", "path": "csrc/fuzz_heap.c", "serves_properties": ["C06"],
+         "kind_free_text": "libFuzzer + ASan/UBSan target for heap.c with an in-target reference model"},
     ],
     "checks": checks,
     "not_applicable": NOT_APPLICABLE,
